@@ -14,7 +14,7 @@ RULE = (
     "oracle: independent bitwise CRC-16 (poly 0x1021, init 0x1021) applied twice as the statement says. "
     "Non-trivial = a CRC with a zero leading nibble or the high bit set in either half, or an input longer "
     "than 255 bytes, or a non-lower-case spelling, or an invalid input; distinct by input string."
-)
+        ' Also: inputs that already end in their own valid signature (signer output fed back), inputs of 4097..65537 bytes around power-of-two block boundaries, embedded blanks as invalid hex.')
 ASSUMPTIONS = [
     "bitwise reference CRC checked against the catalogued check values of '123456789' (XMODEM, CCITT-FALSE, AUG-CCITT)",
     "Hypothesis generators; CPython bytes.fromhex for decoding the library's hex output",
